@@ -352,6 +352,18 @@ static void c7_granshift(long i,long long v){
   for(k=0;k<n;k++)if(seg[k].ispage)idx[np++]=k;
   if(np==0)return;
   i=((i%np)+np)%np; { unsigned char *pg=c7_phys.p+seg[idx[i]].off; serial=(long)(pg[14]|(pg[15]<<8)|(pg[16]<<16)|((unsigned long)pg[17]<<24)); }
+  { /* only streams whose audio spans at least two pages with a granule position: on a one-page stream the shift would change the stream's length by the
+       format's own first-page rule, and the caller's bookkeeping assumes lengths stay */
+    int hp=0,ap=0,cnt=0,have2=0; ogg_stream_state o2;
+    for(k=0;k<np;k++){ unsigned char *pg=c7_phys.p+seg[idx[k]].off; long len=seg[idx[k]].len; long s2=(long)(pg[14]|(pg[15]<<8)|(pg[16]<<16)|((unsigned long)pg[17]<<24)); ogg_page og; ogg_packet op; long long g=0; int b;
+      if(s2!=serial||len<27)continue;
+      og.header=pg; og.header_len=27+pg[26]; og.body=pg+og.header_len; og.body_len=len-og.header_len;
+      if(!have2){ ogg_stream_init(&o2,(int)serial); have2=1; }
+      if(cnt>=3){ for(b=7;b>=0;b--)g=(g<<8)|pg[6+b]; if(g!=-1)ap++; }
+      else{ ogg_stream_pagein(&o2,&og); while(ogg_stream_packetout(&o2,&op)>0)cnt++; hp++; } }
+    if(have2)ogg_stream_clear(&o2);
+    if(ap<2)return;
+  }
   for(k=0;k<np;k++){
     unsigned char *pg=c7_phys.p+seg[idx[k]].off; long len=seg[idx[k]].len; long s2=(long)(pg[14]|(pg[15]<<8)|(pg[16]<<16)|((unsigned long)pg[17]<<24)); ogg_page og; ogg_packet op;
     if(s2!=serial||len<27)continue;
